@@ -30,10 +30,12 @@ from ..cfg import must_facts
 from ..rules import call_sites, event_facts, tainted_names
 from ..mutate import mutate, remove_stmts, replace_expr, replace_stmt, parse_stmt, parse_expr
 from ..model import AnalysisError
-from ..x_taint import flow_taint, expr_tainted, regex_guard, regex_cleaner, guards_in, detects_all, HelperSummaries
+from ..x_taint import flow_taint, expr_tainted, regex_guard, regex_cleaner, guards_in, detects_all, HelperSummaries, Guard, resolve_pattern
+from ..x_flow import expand_locals
 from ..x_cookie import analyse as analyse_cookie, text_params
 
 from ..x_http import norm_func
+from ..x_objalias import subst_object_aliases
 
 # private helpers that the rules model by name (sanitisers / summarised effects) and therefore must stay calls
 KEEP_CALLS = {"_format_chunk", "_convert_header_value", "_clear_representation_headers", "_can_keep_alive", "_compressible_type",
@@ -44,11 +46,28 @@ def F(ck, relpath, qualname):
     """The anchored function with its private same-file helpers inlined (function splitting is followed, depth 3)."""
     fi = ck.func(relpath, qualname)
     try:
-        return norm_func(ck.repo, fi, depth=3, no_inline=KEEP_CALLS)
+        return subst_object_aliases(norm_func(ck.repo, fi, depth=3, no_inline=KEEP_CALLS))
     except AnalysisError:
         raise
     except Exception as e:  # the normaliser must never turn into a verdict
         raise AnalysisError("cannot normalise %s: %r" % (qualname, e))
+
+
+def fully_inlined(fi, keep=()):
+    """No call of a private method of ``self`` is left in the normalised function (other than the ones the rules
+    model by name): only then may the *absence* of an effect be reported as a violation."""
+    for c in q.calls(fi.node):
+        if isinstance(c.func, ast.Attribute) and q.dotted(c.func.value) in ("self", "cls") and c.func.attr.startswith("_") and not c.func.attr.startswith("__") and c.func.attr not in KEEP_CALLS and c.func.attr not in keep:
+            return False
+    return True
+
+
+def absent(fi, what, keep=()):
+    """Verdict for 'the required effect was not found': False (a violation) only when the function was fully
+    recognised; otherwise the analysis fails closed."""
+    if not fully_inlined(fi, keep):
+        raise AnalysisError("%s: %s not found, and private helpers remain that could not be inlined" % (fi.qualname, what))
+    return False
 
 
 TECHNIQUE = "flow-sensitive taint over the CFG with regex guards decided by automaton inclusion; dominance/kill facts for the final CR/LF guard"
@@ -166,14 +185,70 @@ def check_value_sanitized(ck, writers):
     for qn, callee, what in ((RH + ".redirect", "self.set_header", "Location"), (RH + ".flush", "self.add_header", "Set-Cookie")):
         fi = F(ck, WEB, qn)
         cs = [c for _n, c in call_sites(fi, callee) if isinstance(q.arg(c, 0), ast.Constant) and q.arg(c, 0).value == what]
-        ck.ob("C07.value-sanitized", fi, fi.node, len(cs) >= 1, "%s emits %s through %s (the value check applies)" % (qn, what, callee), construct="%s not emitted through %s" % (what, callee))
+        ck.ob("C07.value-sanitized", fi, fi.node, len(cs) >= 1 or absent(fi, "%s(%r, ..)" % (callee, what)), "%s emits %s through %s (the value check applies)" % (qn, what, callee), construct="%s not emitted through %s" % (what, callee))
 
 
-def _final_guard(ck):
-    """Analyse the per-line guard of write_headers; returns the set of bytes it detects."""
-    fi = F(ck, H1, "HTTP1Connection.write_headers")
+def _bound_matcher(repo, fi, e):
+    """``P.search`` / ``P.match`` / ``P.fullmatch`` used as a function value -> (pattern text, mode)."""
+    if isinstance(e, ast.Attribute) and e.attr in ("search", "match", "fullmatch"):
+        return resolve_pattern(repo, fi, e.value), e.attr
+    return None
+
+
+def _scan_of(repo, fi, e):
+    """Recognise an expression that scans a whole list with a regex:
+    ``next(filter(P.search, L), None)``, ``next((x for x in L if P.search(x)), None)``,
+    ``any(P.search(x) for x in L)``, ``any(map(P.search, L))``.
+    Returns (guard, list expression, kind) with kind 'first' (value or None) / 'any' (bool); None if not a scan."""
+    if not isinstance(e, ast.Call) or not isinstance(e.func, ast.Name):
+        return None
+
+    def from_gen(g, want_if):
+        if not isinstance(g, (ast.GeneratorExp, ast.ListComp)) or len(g.generators) != 1 or not isinstance(g.generators[0].target, ast.Name):
+            return None
+        gen = g.generators[0]
+        v = gen.target.id
+        cond = None
+        if want_if:
+            if len(gen.ifs) != 1 or q.dotted(g.elt) != v:
+                return None
+            cond = gen.ifs[0]
+        else:
+            if gen.ifs:
+                return None
+            cond = g.elt
+        rg = regex_guard(repo, fi, cond)
+        if rg is None or rg.var != v or not rg.truthy_means_matched:
+            return None
+        return rg, gen.iter
+
+    if e.func.id == "next" and 1 <= len(e.args) <= 2:
+        if len(e.args) == 2 and not (isinstance(e.args[1], ast.Constant) and e.args[1].value is None):
+            return None
+        src = e.args[0]
+        if isinstance(src, ast.Call) and isinstance(src.func, ast.Name) and src.func.id == "filter" and len(src.args) == 2:
+            bm = _bound_matcher(repo, fi, src.args[0])
+            if bm is None:
+                return None
+            return Guard("<element>", bm[0], bm[1], True, e), src.args[1], "first"
+        r = from_gen(src, True)
+        return (r[0], r[1], "first") if r else None
+    if e.func.id == "any" and len(e.args) == 1:
+        src = e.args[0]
+        if isinstance(src, ast.Call) and isinstance(src.func, ast.Name) and src.func.id == "map" and len(src.args) == 2:
+            bm = _bound_matcher(repo, fi, src.args[0])
+            if bm is None:
+                return None
+            return Guard("<element>", bm[0], bm[1], True, e), src.args[1], "any"
+        r = from_gen(src, False)
+        return (r[0], r[1], "any") if r else None
+    return None
+
+
+def _list_guards(ck, fi):
+    """(anchor node, test node, guard, list expression, edge kind taken when a bad line was found | None)"""
     cfg = fi.cfg
-    loops = []
+    out = []
     for n in cfg.stmt_nodes(lambda n: n.kind == "for"):
         tgt = n.ast.target
         if not isinstance(tgt, ast.Name):
@@ -183,14 +258,52 @@ def _final_guard(ck):
                 continue
             g = regex_guard(ck.repo, fi, t.ast)
             if g is not None and g.var == tgt.id:
-                loops.append((n, t, g))
-    ck.floor("C07.final-guard", len(loops), 1, "per-line regex guard loops in write_headers")
+                out.append((n, t, g, n.ast.iter, None))
+    # containers that are built up step by step keep their name (expanding them would replace the list by its
+    # initial literal); everything else is looked through
+    keep = {q.dotted(c.func.value) for c in q.calls(fi.node) if isinstance(c.func, ast.Attribute) and c.func.attr in ("append", "extend", "insert") and q.dotted(c.func.value)}
+    for t in cfg.stmt_nodes(lambda m: m.kind == "test"):
+        e = expand_locals(fi, t.ast, keep=keep)
+        found_on = "true"
+        if isinstance(e, ast.Compare) and len(e.ops) == 1 and isinstance(e.comparators[0], ast.Constant) and e.comparators[0].value is None:
+            if isinstance(e.ops[0], ast.Is):
+                found_on = "false"
+            elif not isinstance(e.ops[0], ast.IsNot):
+                continue
+            e = e.left
+        sc = _scan_of(ck.repo, fi, e)
+        if sc is None:
+            continue
+        g, lst_expr, _kind = sc
+        # the node where the scan is evaluated: the definition of the local the test reads, or the test itself
+        anchor = t
+        names = q.names_in(t.ast)
+        for st_node in cfg.stmt_nodes(lambda m: m.kind == "stmt" and isinstance(m.ast, (ast.Assign, ast.AnnAssign)) and m.ast.value is not None):
+            if (q.assigned_paths(st_node.ast) & names) and _scan_of(ck.repo, fi, expand_locals(fi, st_node.ast.value, keep=keep)) is not None:
+                anchor = st_node
+        out.append((anchor, t, g, lst_expr, found_on))
+    return out
+
+
+def _final_guard(ck):
+    """Analyse the per-line guard of write_headers; returns the set of bytes it detects."""
+    fi = F(ck, H1, "HTTP1Connection.write_headers")
+    cfg = fi.cfg
+    loops = _list_guards(ck, fi)
+    if not loops:
+        raise AnalysisError("write_headers: no scan of the header lines with a regex was recognised (for-loop with a guard, next(filter(..)), any(..))")
     writes = [(n, c) for n, c in call_sites(fi, "self.stream.write") if not isinstance(q.arg(c, 0), ast.Constant)]
     ck.floor("C07.final-guard", len(writes), 1, "stream.write(<header block>) in write_headers")
     detected = set()
-    for fn, tn, g in loops:
-        good = [k for k in ("true", "false") if g.clean_for(k, (LF, CR))]
-        det = [b for b in FORBIDDEN if any(g.clean_for(k, (b,)) for k in ("true", "false"))]
+    for fn, tn, g, lst_expr, found_on in loops:
+        if found_on is None:
+            good = [k for k in ("true", "false") if g.clean_for(k, (LF, CR))]
+            det = [b for b in FORBIDDEN if any(g.clean_for(k, (b,)) for k in ("true", "false"))]
+        else:
+            # whole-list scan: the list is clean on the 'nothing found' edge iff a failed match proves absence
+            ok_scan = g.clean_for("false", (LF, CR))
+            good = [("false" if found_on == "true" else "true")] if ok_scan else []
+            det = [b for b in FORBIDDEN if g.clean_for("false", (b,))]
         ck.ob("C07.final-guard", fi, tn.ast, len(good) == 1, "the final guard, as used (%s), detects CR and LF anywhere in a line (undetected: %s)" % (g.mode, _fmt([b for b in (LF, CR) if b not in det]) or "-"))
         if len(good) != 1:
             continue
@@ -207,10 +320,16 @@ def _final_guard(ck):
                     stack.append(y)
         escapes = cfg.exit.id in reach or any(w.id in reach for w, _ in writes) or fn.id in reach
         ck.ob("C07.final-guard", fi, tn.ast, not escapes, "a line failing the guard aborts write_headers (no write, no next line, no normal return)", construct="guard failure does not abort: " + q.normalize_construct(tn.ast, q.local_names(fi.node)))
-        lst = q.dotted(fn.ast.iter)
-        ck.ob("C07.final-guard", fi, fn.ast.iter, lst is not None, "the guard iterates over the whole list of lines (not a slice/subset)")
+        lst = q.dotted(lst_expr)
         if lst is None:
+            # positively a subset (a slice / element / conditional choice of lists) -> violation; anything else is
+            # a shape this rule does not understand -> fail closed, never a verdict
+            subset = isinstance(lst_expr, ast.Subscript) or (isinstance(lst_expr, ast.IfExp) and any(isinstance(x, ast.Subscript) for x in ast.walk(lst_expr)))
+            if not subset:
+                raise AnalysisError("write_headers: the scanned collection %s is not a plain list name" % q.unparse(lst_expr)[:60])
+            ck.ob("C07.final-guard", fi, lst_expr, False, "the guard iterates over the whole list of lines (not a slice/subset)")
             continue
+        ck.ob("C07.final-guard", fi, lst_expr, True, "the guard iterates over the whole list of lines (not a slice/subset)")
         mut = lambda n, lst=lst: n.kind == "stmt" and (
             lst in q.assigned_paths(n.ast) or any(isinstance(c.func, ast.Attribute) and q.dotted(c.func.value) == lst and c.func.attr in ("append", "extend", "insert", "__iadd__") for c in q.calls(n.ast))
         )
@@ -228,7 +347,7 @@ def _final_guard(ck):
                             joined.add(j.args[0].id)
             if not joined:
                 raise AnalysisError("write_headers: cannot find the list the header block is joined from (unknown idiom)")
-            ck.ob("C07.final-guard", fi, fn.ast.iter, joined == {lst}, "the list that is tested ('%s') is the list the header block is joined from (%s): start line and every header line are covered" % (lst, ", ".join(sorted(joined))),
+            ck.ob("C07.final-guard", fi, lst_expr, joined == {lst}, "the list that is tested ('%s') is the list the header block is joined from (%s): start line and every header line are covered" % (lst, ", ".join(sorted(joined))),
                   construct="guard iterates %s but the block is joined from %s" % ("the joined list" if joined == {lst} else "another list", "it" if joined == {lst} else "a list with more lines"))
         for wn, c in writes:
             a = q.arg(c, 0)
@@ -308,7 +427,7 @@ def check_reason(ck):
     ck.floor("C07.reason", n_store, 2, "stores to self._reason")
     # send_error / HTTPError.reason funnel through set_status
     se = F(ck, WEB, RH + ".send_error")
-    ck.ob("C07.reason", se, se.node, not q.stores_to(se.node, "self._reason") and len(call_sites(se, "self.set_status")) >= 1,
+    ck.ob("C07.reason", se, se.node, not q.stores_to(se.node, "self._reason") and (len(call_sites(se, "self.set_status")) >= 1 or absent(se, "self.set_status(..)")),
           "send_error passes its reason (and HTTPError.reason) to set_status instead of storing it", construct="send_error bypasses set_status")
     # the status line is built from the integer code and _reason only
     fl = F(ck, WEB, RH + ".flush")
